@@ -31,6 +31,9 @@ def extract_type(s, kind, name, keep=KEEP_DERIVES):
     return filter_derives(s.text[it['start']:it['end']], keep)
 
 
+HOISTED = []
+
+
 def guard_arm_to_if(name, body):
     """Mechanical rewrite (listed in the evidence): a guarded arm immediately followed by the final wildcard arm,
         PAT if GUARD => { B } _ => { W }      becomes      PAT => { if GUARD { B } else { W } } _ => { W }
@@ -115,6 +118,26 @@ def splice_fn(s, name, impl, spec):
         inserts.append((k + 1, '\n' + ptxt + '\n'))
     for off, txt in sorted(inserts, reverse=True):
         body = body[:off] + txt + body[off:]
+    if spec.get('hoist_items'):
+        # Verus does not support item statements inside a function body: `enum X {..}` declared in the body is moved,
+        # verbatim (derive list filtered), in front of the impl block (listed rewrite)
+        while True:
+            mb = Source(s.path, body).mask
+            m = re.search(r'(?:#\[derive\([^\]]*\)\]\s*)?\benum\s+\w+\s*\{', mb)
+            if not m:
+                break
+            o = m.end() - 1
+            depth, k = 0, o
+            while k < len(mb):
+                if mb[k] == '{':
+                    depth += 1
+                elif mb[k] == '}':
+                    depth -= 1
+                    if depth == 0:
+                        break
+                k += 1
+            HOISTED.append(filter_derives(body[m.start():k + 1]))
+            body = body[:m.start()] + body[k + 1:]
     if spec.get('guard_to_if'):
         body = guard_arm_to_if(name, body)
     for old, new in spec.get('rewrites', []):
@@ -134,25 +157,50 @@ ALLOWED_ASSUMES = {'assume(self.index < usize::MAX); /* A1 */'}
 _cache = {}
 
 
-def build_and_verify(scratch):
-    """Build parser_v.rs from the scratch copy and verify it once per process."""
-    if 'res' in _cache:
-        return _cache['res']
+SUM_SPEC = dict(
+    ret='r',
+    requires=['spec_sum(raw_output_buffer@, *buffer_key) <= usize::MAX', 'vstd::std_specs::hash::obeys_key_model::<String>()'],
+    ensures=['/*C07.sum*/ r == spec_sum(raw_output_buffer@, *buffer_key)'],
+    loops={0: dict(iter='it', invariant=['sum == spec_sum(raw_output_buffer@.take(it.index@ as int), *buffer_key)',
+                                          'vstd::std_specs::hash::obeys_key_model::<String>()',
+                                          'spec_sum(raw_output_buffer@, *buffer_key) <= usize::MAX'])},
+    proofs={r'let\s+mut\s+sum\s*=\s*0;': 'broadcast use vstd::std_specs::hash::group_hash_axioms;',
+            r'if\s+let\s+Some\(value\)\s*=\s*value\.get\(buffer_key\)':
+                'proof { lemma_sum_step(raw_output_buffer@, *buffer_key, it.index@ as int); '
+                'lemma_sum_mono(raw_output_buffer@, *buffer_key, it.index@ as int + 1); }',
+            r'\bsum\s*\}\s*$': 'proof { assert(raw_output_buffer@.take(raw_output_buffer@.len() as int) == raw_output_buffer@); }'})
+
+
+def build_sum(scratch):
+    s = Source(os.path.join(scratch, 'src/function.rs'))
+    t, h = splice_fn(s, 'get_buffer_sum', None, SUM_SPEC)
+    prelude = open(os.path.join(VERIF, 'harness', 'verus_sum_prelude.rs')).read()
+    return prelude + '\n' + t + '\n} // verus!\nfn main() {}\n', {'function::get_buffer_sum': h}
+
+
+def build_and_verify(scratch, kind='parser'):
+    """Build the generated Verus file of this kind from the scratch copy and verify it once per process."""
+    if kind in _cache:
+        return _cache[kind]
     sys.path.insert(0, os.path.join(VERIF, 'contracts'))
     import verus_specs
     import verus_parser
     res = dict(anchor_lost=None)
     try:
-        text, shas = verus_parser.build(scratch, verus_specs.SPECS, verus_specs.EXTRA)
+        if kind == 'parser':
+            text, shas = verus_parser.build(scratch, verus_specs.SPECS, verus_specs.EXTRA)
+        else:
+            text, shas = build_sum(scratch)
     except AnchorLost as e:
         res['anchor_lost'] = str(e)
-        _cache['res'] = res
+        _cache[kind] = res
         return res
     vdir = os.path.join(os.path.dirname(scratch), 'verus')
     os.makedirs(vdir, exist_ok=True)
-    path = os.path.join(vdir, 'parser_v.rs')
+    path = os.path.join(vdir, kind + '_v.rs')
     open(path, 'w').write(text)
-    r = vlib.run_verus(path)
+    # the crate's default features, so that cfg(feature = ..) code is the code that `cargo build` compiles
+    r = vlib.run_verus(path, extra=['--', '--cfg', 'feature="git"', '--cfg', 'feature="users"'])
     res.update(text=text, shas=shas, out=r['out'], json=r['json'], cmd=r['cmd'], wall=r['wall'], rc=r['rc'], path=path)
     # assumption scan
     assumes = re.findall(r'\bassume\s*\([^;]*;(?:\s*/\*[^*]*\*/)?', text)
@@ -203,18 +251,25 @@ def build_and_verify(scratch):
     res['vir_error'] = bool(vr.get('encountered-vir-error')) or js is None or ('verified' not in vr)
     res['verified'] = vr.get('verified')
     res['errors'] = vr.get('errors')
-    _cache['res'] = res
+    _cache[kind] = res
     return res
 
 
 def run(spec, prop, tier, vobl, results, undecided, violations, checker_cmds, assumptions, extra, scratch):
-    res = build_and_verify(scratch)
+    kinds = sorted(set(o.get('verus_file', 'parser') for o in vobl))
+    for kind in kinds:
+        run_kind(kind, [o for o in vobl if o.get('verus_file', 'parser') == kind], prop, results, undecided, violations,
+                 checker_cmds, assumptions, extra, scratch)
+
+
+def run_kind(kind, vobl, prop, results, undecided, violations, checker_cmds, assumptions, extra, scratch):
+    res = build_and_verify(scratch, kind)
     if res.get('anchor_lost'):
         for o in vobl:
             results[o['id']] = dict(status='undecided', detail='anchor lost: ' + res['anchor_lost'])
             undecided.append(o['id'])
         return
-    checker_cmds.append('verus parser_v.rs --output-json --time --multiple-errors 50')
+    checker_cmds.append(f'verus {kind}_v.rs --output-json --time --multiple-errors 50')
     if res['vir_error'] or res['bad_assumes'] or res['admits']:
         why = ('unsupported construct / tool error in the generated Verus file' if res['vir_error'] else
                f"unexpected assume/admit in generated file: {res['bad_assumes']} admits={res['admits']}")
@@ -248,11 +303,14 @@ def run(spec, prop, tier, vobl, results, undecided, violations, checker_cmds, as
                 undecided.append(o['id'])
                 continue
             lab_rx = r'/\*C\d\d[^*]*\*/'
+            unlabelled = [e for e in errs if not re.search(lab_rx, e)]
             if label is not None:
-                mine = [e for e in errs if '/*' + label + '*/' in e]
+                # a labelled obligation fails on its own clause(s) and on every un-labelled error of the function (a broken
+                # invariant, assertion or callee precondition undermines all postconditions of that function)
+                mine = [e for e in errs if '/*' + label + '*/' in e] + unlabelled
             else:
-                # un-labelled obligation (panic freedom + frame): every error not tied to a labelled clause
-                mine = [e for e in errs if not re.search(lab_rx, e)]
+                # un-labelled obligation (panic freedom, frame, termination): every error not tied to a labelled clause
+                mine = unlabelled
             if not mine and errs:
                 results[o['id']] = dict(status='discharged', time=st['ms'] / 1000.0,
                                         detail='function fails only on clauses that belong to other obligations')
@@ -265,10 +323,13 @@ def run(spec, prop, tier, vobl, results, undecided, violations, checker_cmds, as
     for fn, h in res['shas'].items():
         extra['functions'].append({'fn': fn, 'engine': 'V', 'how': 'extracted verbatim on this run, contracts spliced',
                                    'sha256_16': h})
+    if kind == 'sum':
+        assumptions.append('SUM: the mathematical sum fits usize (requires); String keys obey the hash-table key model (vstd obeys_key_model::<String>, assumed)')
+        return
     assumptions.append('A1: token cursor < usize::MAX at every next_lexem (one ghost assume in next_lexem; machine arithmetic on the cursor treated as bounded)')
-    assumptions.append('Verus run with exec_allows_no_decreases_clause: termination of the parser is NOT proved')
+    assumptions.append('termination: proved by decreases clauses for the functions under contract; helper methods extracted without contract carry exec_allows_no_decreases_clause')
     assumptions.append('trusted (external_body, no body verified): ' + ', '.join(sorted(set(res['external_bodies']))))
     assumptions.append('assumed std contracts (assume_specification): ' + ', '.join(sorted(set(res['assume_specs']))))
     extra['dropped'].append('Engine V extraction drops: derives other than Clone/Copy/PartialEq/Eq, #[rustfmt::skip], cfg-gated enum variants '
                             '(User/Group need feature "users"), impl blocks other than the listed functions; rewrites: '
-                            '`if let &Some(op) = &expr.op` -> `if let Some(op) = expr.op`, guarded arm -> if/else in parse_function')
+                            '`if let &Some(op) = &expr.op` -> `if let Some(op) = expr.op`, guarded arm -> if/else in parse_function, the local enum of parse_root_options hoisted in front of the impl block')
